@@ -1,6 +1,7 @@
 """C19 — bailiwick and termination in the recursor: sanitiser before sink, NS-owner/glue/server-filter guards,
 every recursive cycle passes a depth check."""
 import re
+import helpers
 from api import shorten, Site
 
 EXPLANATION = (
@@ -130,6 +131,9 @@ def run(cx):
             n_guarded += 1
             cx.guard('C19.R1', [s], {'depth-not-exhausted': r'^!DepthTracker::is_exhausted\('}, fn=g)
     cx.floor('C19.R1', n_guarded, 1, 'DepthTracker::nest call sites')
+
+    # ---------------------------------------------------------------- H helper semantics the guards above rely on (rules/helpers.py)
+    helpers.check(cx, 'C19.H', ['Name::zone_of', 'Name::base_name', 'Name::trim_to'])
 
 
 def short(p):
